@@ -1,5 +1,6 @@
 import OpcuaModel.Base.Tactics
 import OpcuaModel.Model.Limits
+import OpcuaModel.Gen.Handshake
 /-
   C06 — negotiated transport limits are honoured in both directions.
 
@@ -21,6 +22,29 @@ import OpcuaModel.Model.Limits
 -/
 namespace Opcua.Props.C06
 open Opcua Opcua.Limits
+
+/-- the model's negotiation IS the function extracted from the running code: `Gen.hsClient…` /
+    `Gen.hsServer…` are inferred by the generator from real HEL/ACK exchanges over loopback (field
+    copy / default for zero / minimum) and regenerated on every run.  A change of `Handshake` or
+    `srvhandshake` changes them, and this theorem — on which the reading of every other theorem
+    about `negotiate` rests — no longer holds. -/
+theorem C06_negotiate_generated (hello ack : Ack) :
+    negotiate hello ack =
+      { client := ⟨Gen.hsClientRcv hello.rcv hello.snd hello.maxMsg hello.maxChunks ack.rcv ack.snd ack.maxMsg ack.maxChunks,
+                   Gen.hsClientSnd hello.rcv hello.snd hello.maxMsg hello.maxChunks ack.rcv ack.snd ack.maxMsg ack.maxChunks,
+                   Gen.hsClientMaxMsg hello.rcv hello.snd hello.maxMsg hello.maxChunks ack.rcv ack.snd ack.maxMsg ack.maxChunks,
+                   Gen.hsClientMaxChunks hello.rcv hello.snd hello.maxMsg hello.maxChunks ack.rcv ack.snd ack.maxMsg ack.maxChunks⟩
+        server := ⟨Gen.hsServerRcv hello.rcv hello.snd hello.maxMsg hello.maxChunks ack.rcv ack.snd ack.maxMsg ack.maxChunks,
+                   Gen.hsServerSnd hello.rcv hello.snd hello.maxMsg hello.maxChunks ack.rcv ack.snd ack.maxMsg ack.maxChunks,
+                   Gen.hsServerMaxMsg hello.rcv hello.snd hello.maxMsg hello.maxChunks ack.rcv ack.snd ack.maxMsg ack.maxChunks,
+                   Gen.hsServerMaxChunks hello.rcv hello.snd hello.maxMsg hello.maxChunks ack.rcv ack.snd ack.maxMsg ack.maxChunks⟩ } := by
+  simp [negotiate, clientAdopt, Gen.hsClientRcv, Gen.hsClientSnd, Gen.hsClientMaxMsg, Gen.hsClientMaxChunks,
+    Gen.hsServerRcv, Gen.hsServerSnd, Gen.hsServerMaxMsg, Gen.hsServerMaxChunks,
+    Gen.defaultMaxChunkCount, Gen.defaultMaxMessageSize]
+
+/-- … and reproduces every handshake the generator observed on the real code (sentinel values,
+    zeros, the witnesses' configurations, random configurations of the domain) -/
+theorem C06_handshake_rows : ∀ row ∈ Gen.handshakeRows, rowAgrees row = true := by decide +kernel
 
 /-- whatever the policy, mode and message: every chunk a side writes fits the value it
     took for its own send buffer (C38's statement applied to every chunk of the message) -/
@@ -82,40 +106,8 @@ theorem C06_legal_partial (hello ack : Ack) (a : AlgoParams) (m : Mode) (sender 
     (g4 : sender = .server → hello.rcv ≤ ack.rcv) :
     LegalAccepted hello ack a m sender n := by
   intro hw hex
-  -- receive loop invariant: every chunk passes the size check; a non-zero limit is respected
-  have key : ∀ (rv : Ack) (bodies : List Nat) (held sum : Nat),
-      (∀ b ∈ bodies, wireLen a m b ≤ (rv.rcv : Int)) →
-      (rv.maxChunks ≠ 0 → held + bodies.length ≤ rv.maxChunks + 1) →
-      (rv.maxMsg ≠ 0 → sum + bodies.sum ≤ rv.maxMsg) →
-      recvLoop rv (bodies.map fun b => (wireLen a m b, b)) held sum = .ok := by
-    intro rv bodies
-    induction bodies with
-    | nil => intros; simp [recvLoop]
-    | cons b rest ih =>
-      intro held sum hfit hcnt hsum
-      have hb := hfit b (by simp)
-      cases rest with
-      | nil =>
-        simp only [List.map, recvLoop]
-        simp only [List.sum_cons, List.sum_nil] at hsum
-        have h1 : ¬ wireLen a m b > (rv.rcv : Int) := by omega
-        have h2 : ¬ (rv.maxMsg ≠ 0 ∧ sum + b > rv.maxMsg) := by
-          intro ⟨h0, hgt⟩; have := hsum h0; omega
-        simp [h1, h2]
-      | cons c rest' =>
-        simp only [List.map, recvLoop]
-        simp only [List.length_cons] at hcnt
-        simp only [List.sum_cons] at hsum
-        have h1 : ¬ wireLen a m b > (rv.rcv : Int) := by omega
-        have h2 : ¬ (rv.maxChunks ≠ 0 ∧ held + 1 > rv.maxChunks) := by
-          intro ⟨h0, hgt⟩; have := hcnt h0; omega
-        simp only [h1, h2, if_false]
-        have := ih (held + 1) (sum + b) (fun x hx => hfit x (by simp [hx]))
-          (fun h0 => by have := hcnt h0; simp only [List.length_cons]; omega)
-          (fun h0 => by have := hsum h0; simp only [List.sum_cons]; omega)
-        simpa [List.map] using this
   unfold receive
-  apply key
+  apply recvLoop_ok
   · intro b hb
     have := hw (wireLen a m b) (by simp only [wireChunks, List.mem_map]; exact ⟨b, hb, rfl⟩)
     cases sender
@@ -163,6 +155,24 @@ theorem C06_zero_is_no_limit (a : AlgoParams) (m : Mode) (ack : Ack) (h0 : ack.m
         simp only [List.map, recvLoop, hlt, h1, if_false, ne_eq, not_true_eq_false, false_and]
         simpa [List.map] using ih (fun x hx => hfit x (by simp [hx])) (held + 1) (sum + b)
   exact key bodies hfit 0 0
+
+/-- the receiver's chunk-count check is lenient by one: the final chunk is not counted, so a message
+    of exactly MaxChunkCount + 1 chunks (MaxChunkCount intermediate + 1 final) is accepted … -/
+theorem C06_chunk_count_lenient (a : AlgoParams) (m : Mode) (v : Ack) (bodies : List Nat)
+    (hlen : bodies.length = v.maxChunks + 1)
+    (hfit : ∀ b ∈ bodies, wireLen a m b ≤ (v.rcv : Int)) (hsum : v.maxMsg ≠ 0 → bodies.sum ≤ v.maxMsg) :
+    receive a m v bodies = .ok :=
+  recvLoop_ok a m v bodies 0 0 hfit (fun _ => by omega) (fun h => by have := hsum h; omega)
+
+/-- … and MaxChunkCount + 2 chunks or more are refused.  The limit concerned is the receiver's own
+    (the one it advertised); accepting one chunk more than announced breaks none of C06's clauses —
+    they bind the sender to the limit and the receiver to accept what is within it — so this is a
+    documented leniency (relevant for C13's memory bound), not a C06 finding. -/
+theorem C06_chunk_count_bound (a : AlgoParams) (m : Mode) (v : Ack) (bodies : List Nat)
+    (h0 : v.maxChunks ≠ 0) (hlen : bodies.length ≥ v.maxChunks + 2)
+    (hfit : ∀ b ∈ bodies, wireLen a m b ≤ (v.rcv : Int)) :
+    receive a m v bodies = .tooManyChunks :=
+  recvLoop_tooMany a m v bodies 0 0 hfit h0 (by omega) (by omega)
 
 /-! ### findings: where the full property fails (None policy, as confirmed over loopback) -/
 
